@@ -250,7 +250,8 @@ class TriangleSet(primitive.Primitive):
         recomputed, call this method to recompute them."""
         norms = numpy.zeros(self._vertex.shape, dtype=self._vertex.dtype)
         tris = self._vertex[self._vertex_index]
-        n = numpy.cross(tris[::, 1] - tris[::, 0], tris[::, 2] - tris[::, 0])
+        # unit edge vectors keep the cross product in range for very large or very small meshes
+        n = numpy.cross(normalize_v3(tris[::, 1] - tris[::, 0]), normalize_v3(tris[::, 2] - tris[::, 0]))
         normalize_v3(n)
         numpy.add.at(norms, self._vertex_index[:, 0], n)
         numpy.add.at(norms, self._vertex_index[:, 1], n)
@@ -414,7 +415,8 @@ class BoundTriangleSet(primitive.BoundPrimitive):
         recomputed, call this method to recompute them."""
         norms = numpy.zeros(self._vertex.shape, dtype=self._vertex.dtype)
         tris = self._vertex[self._vertex_index]
-        n = numpy.cross(tris[::, 1] - tris[::, 0], tris[::, 2] - tris[::, 0])
+        # unit edge vectors keep the cross product in range for very large or very small meshes
+        n = numpy.cross(normalize_v3(tris[::, 1] - tris[::, 0]), normalize_v3(tris[::, 2] - tris[::, 0]))
         normalize_v3(n)
         numpy.add.at(norms, self._vertex_index[:, 0], n)
         numpy.add.at(norms, self._vertex_index[:, 1], n)
